@@ -4,8 +4,10 @@
    Vocabulary (Model/Merge.v):
    [merge_tiles f k cs]   the in-memory part of TileMerger.walk_callback for a pio whose
                           default format is f, tile size k (256 in the code), children
-                          cs = [TL; TR; BL; BR] as optional images (the code as it is);
-   [merge_tiles_fixed]    the same with the repaired integer update (fixes/C02-1.patch);
+                          cs = [TL; TR; BL; BR] as optional images, with the integer update
+                          rule the code had before fix a186b8b (np.maximum);
+   [merge_tiles_fixed]    the same with the repaired integer update: the code as it is now,
+                          and what the correspondence check compares the implementation with;
    [disp bu im]           the image in display orientation (rows reversed when the format
                           is stored bottom-up, bu = bottom_up f, true exactly for fits);
    [mosaic_of mosaic_val bu k m cs]  the 2k x 2k display-orientation mosaic: child
@@ -27,8 +29,8 @@ Import ListNotations.
 Local Open Scope Z_scope.
 
 (* The parent is the 2x2 block reduction of the display-orientation mosaic, for
-   both vertical parities, every tile size, every sparsity pattern — for the code
-   as it is when integer children hold no negative values ... *)
+   both vertical parities, every tile size, every sparsity pattern — under the old
+   np.maximum rule when integer children hold no negative values ... *)
 Theorem merge_pixel : merge_pixel_statement merge_tiles nonneg_children.
 Proof. exact merge_pixel_lemma. Qed.
 Print Assumptions merge_pixel.
@@ -40,7 +42,7 @@ Theorem merge_pixel_refuted : ~ merge_pixel_statement merge_tiles (fun _ => True
 Proof. exact merge_int_refuted_lemma. Qed.
 Print Assumptions merge_pixel_refuted.
 
-(* With the repaired integer rule the statement holds for all contents. *)
+(* With the repaired integer rule -- the code as it is now -- the statement holds for all contents. *)
 Theorem merge_pixel_fixed : merge_pixel_statement merge_tiles_fixed (fun _ => True).
 Proof. exact merge_pixel_fixed_lemma. Qed.
 Print Assumptions merge_pixel_fixed.
@@ -98,7 +100,7 @@ Print Assumptions merge_exists.
 (* Cascade: starting with nothing above the start level, after the walk every tile
    above the start level is the iterated reduction of the leaves beneath it (absent
    when that reduction is absent or completely masked); leaves and files of other
-   formats are untouched.  (u = upd_px: the code; u = upd_px_fixed: repaired.) *)
+   formats are untouched.  (u = upd_px: the code before fix a186b8b; u = upd_px_fixed: the code now.) *)
 Theorem cascade_spec :
   forall u dflt k orc start st0 order st',
     upper_levels_empty dflt st0 start ->
